@@ -46,6 +46,26 @@ PAYLOADS = {
 DIRECT = {g: _graphml(_payload_graph(['1', '2', '3', '4'], ['a', 'b', 'c', 'd'], gid=g, extra={'D': 'direct'})) for g in GIDS}
 
 
+def _mixed_payload(gid, other):
+    """a document for the direct importers whose first two nodes name `gid` and whose last two name `other` as their graph"""
+    g = _payload_graph(['1', '2', '3', '4'], ['m1', 'm2', 'm3', 'm4'], gid=gid, extra={'D': 'mixed'})
+    for k in ('3', '4'):
+        g.nodes[k]['GraphID'] = other
+    return _graphml(g)
+
+
+def _via_file(text, fn):
+    import os
+    import tempfile
+    fd, path = tempfile.mkstemp(suffix='.graphml', prefix='c04_')
+    try:
+        with os.fdopen(fd, 'w', encoding='utf-8') as f:
+            f.write(text)
+        return fn(path)
+    finally:
+        os.unlink(path)
+
+
 def _bad_payload(gid):
     """what an export of graph `gid` looks like (its nodes carry GraphID=gid) with the NodeID of a non-first node lost"""
     g = _payload_graph(['1', '2', '3'], ['a', 'b', 'c'], gid=gid, extra={'B': 'bad'})
@@ -166,6 +186,11 @@ class StoreModel(Model):
             ev.append(('import', g, 'P1'))
             ev.append(('import', g, 'P2'))
             ev.append(('import_direct', g))
+            ev.append(('import_direct_file', g))         # the file-based sibling: same document, same outcome
+            other = GIDS[(GIDS.index(g) + 1) % len(GIDS)]
+            for variant in ('string', 'file'):
+                # a document whose nodes name two graphs is not a graph: both direct importers refuse it, nothing changes
+                ev.append(('import_direct_mixed', g, other, variant))
             if g == 'G3':
                 ev.append(('import', g, 'P3'))       # a graph that is importable but does not validate (Class missing)
             # an import that must fail (a node without NodeID) of a document whose nodes name ANOTHER graph as theirs
@@ -197,6 +222,14 @@ class StoreModel(Model):
                 self.imp().import_graph_from_string(graph_string=PAYLOADS[ev[2]], graph_id=ev[1])
             elif k == 'import_direct':
                 self.imp().import_graph_from_string_direct(graph_string=DIRECT[ev[1]])
+            elif k == 'import_direct_file':
+                _via_file(DIRECT[ev[1]], lambda path: self.imp().import_graph_from_file_direct(graph_file=path))
+            elif k == 'import_direct_mixed':
+                doc = _mixed_payload(ev[1], ev[2])
+                if ev[3] == 'string':
+                    self.imp().import_graph_from_string_direct(graph_string=doc)
+                else:
+                    _via_file(doc, lambda path: self.imp().import_graph_from_file_direct(graph_file=path))
             elif k == 'import_bad':
                 self.imp().import_graph_from_string(graph_string=BAD[ev[2]], graph_id=ev[1])
             elif k == 'add_node':
@@ -252,11 +285,14 @@ class StoreModel(Model):
                           f'before={_brief(pre.get(gid))} after={_brief(post.get(gid))}'))
         # re-import under an id: the shared store replaces the graph of that id, the per-graph store keeps a live graph
         # (documented skip) - in both cases the result is exactly one of the two graphs, never a mixture
-        if k in ('import', 'import_direct') and outcome[0] == 'ok':
+        if k == 'import_direct_mixed' and outcome[0] == 'ok':
+            v.append((f'import-accepts-mixed-graph-ids/{self.flavour}/{ev[3]}',
+                      f'[{self.flavour}] {ev}: a document whose nodes name graphs {ev[1]} and {ev[2]} was imported'))
+        if k in ('import', 'import_direct', 'import_direct_file') and outcome[0] == 'ok':
             want = PAYLOAD_CANON[ev[2]] if k == 'import' else DIRECT_CANON
             got = _strip_gid(post[target]) if target in post else None
             had = _strip_gid(pre[target]) if target in pre else None
-            allowed = [want] if (self.flavour == 'shared' or had is None or k == 'import_direct') else [had]
+            allowed = [want] if (self.flavour == 'shared' or had is None or k != 'import') else [had]
             if got not in allowed:
                 v.append((f'import-content/{self.flavour}/{k}',
                           f'[{self.flavour}] {ev}: graph {target} holds {_brief(post.get(target))}, expected '
